@@ -186,6 +186,15 @@ pub fn run(ctx: &mut Ctx, c: &Case) -> (String, String) {
             let op = c.op.to_string();
             record(hs, &[], || memchr_op(&op, &be, &ns, hs))
         }
+        // ---- C06 / C07: iterator histories
+        "iter" => {
+            let ns = c.bytes("ns");
+            let h = c.bytes("h");
+            let hs = ctx.hay.place(&h, c.num("a"), flush_of(c.num("fl")));
+            let be = c.str("be").to_string();
+            let ops = c.str("ops").to_string();
+            record(hs, &[], || iter_op(&be, &ns, hs, &ops))
+        }
         _ => {
             let _ = opt(None);
             ("UnknownOp".to_string(), "-".to_string())
@@ -231,6 +240,71 @@ pub fn memchr_op(op: &str, be: &str, ns: &[u8], hs: &[u8]) -> String {
             ("rfind", 2) => opt(memchr::memrchr2(ns[0], ns[1], hs)),
             ("rfind", 3) => opt(memchr::memrchr3(ns[0], ns[1], ns[2], hs)),
             ("count", 1) => memchr::memchr_iter(ns[0], hs).count().to_string(),
+            _ => "BadCase".to_string(),
+        },
+        _ => "BadBackend".to_string(),
+    }
+}
+
+fn drive<I: DoubleEndedIterator<Item = usize> + Clone>(mut it: I, ops: &str, can_count: bool) -> String {
+    let mut outs: Vec<String> = Vec::new();
+    for ch in ops.chars() {
+        match ch {
+            'N' => outs.push(opt(it.next())),
+            'B' => outs.push(opt(it.next_back())),
+            'S' => {
+                let (lo, hi) = it.size_hint();
+                outs.push(format!("{}-{}", lo, hi.map(|x| x.to_string()).unwrap_or("inf".to_string())));
+            }
+            'C' => {
+                if can_count {
+                    outs.push(it.clone().count().to_string())
+                } else {
+                    outs.push("BadCase".to_string())
+                }
+            }
+            _ => outs.push("BadOp".to_string()),
+        }
+    }
+    if outs.is_empty() {
+        "-".to_string()
+    } else {
+        outs.join(";")
+    }
+}
+
+macro_rules! iter_arity {
+    ($m:path, $ns:expr, $hs:expr, $ops:expr, $new:ident, $unwrap:expr) => {{
+        use $m as be;
+        match $ns.len() {
+            1 => {
+                let s = $unwrap(be::One::$new($ns[0]));
+                drive(s.iter($hs), $ops, true)
+            }
+            2 => {
+                let s = $unwrap(be::Two::$new($ns[0], $ns[1]));
+                drive(s.iter($hs), $ops, false)
+            }
+            3 => {
+                let s = $unwrap(be::Three::$new($ns[0], $ns[1], $ns[2]));
+                drive(s.iter($hs), $ops, false)
+            }
+            _ => "BadCase".to_string(),
+        }
+    }};
+}
+
+pub fn iter_op(be: &str, ns: &[u8], hs: &[u8], ops: &str) -> String {
+    match be {
+        "swar" => iter_arity!(memchr::arch::all::memchr, ns, hs, ops, new, ident),
+        #[cfg(target_arch = "x86_64")]
+        "sse2" => iter_arity!(memchr::arch::x86_64::sse2::memchr, ns, hs, ops, new, unwrap_avail),
+        #[cfg(target_arch = "x86_64")]
+        "avx2" => iter_arity!(memchr::arch::x86_64::avx2::memchr, ns, hs, ops, new, unwrap_avail),
+        "top" => match ns.len() {
+            1 => drive(memchr::memchr_iter(ns[0], hs), ops, true),
+            2 => drive(memchr::memchr2_iter(ns[0], ns[1], hs), ops, false),
+            3 => drive(memchr::memchr3_iter(ns[0], ns[1], ns[2], hs), ops, false),
             _ => "BadCase".to_string(),
         },
         _ => "BadBackend".to_string(),
